@@ -114,6 +114,15 @@ def _no_lookup(c) -> bool:
     return not any(isinstance(x, ast.Call) and call_name(x) in LOOKUPS for x in ast.walk(c))
 
 
+def _not_about_kind_or_registry(c) -> bool:
+    return not any(isinstance(x, ast.Call) and call_name(x) == "isinstance" or isinstance(x, ast.Attribute) and x.attr in REGISTRIES for x in ast.walk(c))
+
+
+def _not_about_uids(c) -> bool:
+    return not any(isinstance(x, ast.Attribute) and x.attr in ("uid", "_types") or isinstance(x, ast.Constant) and x.value == "uid"
+                   or isinstance(x, ast.Call) and call_name(x) == "any" for x in ast.walk(c))
+
+
 # ---------------------------------------------------------------------- who may re-bind a registry
 def _rebind_allowed(p, ws) -> set:
     """Names of the Workspace methods in which a registry may be replaced: __init__ / open, and private helpers that are
@@ -170,7 +179,7 @@ def _register_paths(ctx):
         out = {}
         for kind in KIND_OF.values():
             facts = {k: (k == kind) for k in KIND_OF.values()}
-            out[kind] = Sym(ctx, reg, assume=lambda c, facts=facts: tv(c, ent, facts)).run()
+            out[kind] = Sym(ctx, reg, assume=lambda c, facts=facts: tv(c, ent, facts), boring=_not_about_kind_or_registry).run()
         ctx.cache["c06.register"] = out
     return ctx.cache["c06.register"]
 
@@ -428,7 +437,7 @@ def _own_children(ctx, res):
                 continue
         me = fn.self_name
         sites = {}
-        for path in _paths(ctx, fn):
+        for path in _paths(ctx, fn, boring=_not_about_uids, tag="uids"):
             for ev in path.trace:
                 for elem, facts in _attached(ev, me) or []:
                     s = sites.setdefault((id(ev.node), _t(elem)), {"ev": ev, "elem": elem, "by_uid": True})
@@ -652,7 +661,7 @@ def _guard_type_copy(ctx, res):
     et = ctx.p.func("EntityType.copy")
     kwargs = et.node.args.kwarg.arg if et.node.args.kwarg else None
     n, ok = 0, kwargs is not None
-    for path in _paths(ctx, et):
+    for path in _paths(ctx, et, boring=_not_about_uids, tag="uids"):
         if path.end != "return" or not isinstance(path.value, ast.Call):
             continue
         splat = [k.value for k in path.value.keywords if k.arg is None]
